@@ -511,6 +511,41 @@ pub fn space_c(thorough: bool) -> Vec<Prog> {
             }
         }
     }
+    // pure forwarding helpers: bodies made of nothing but argument-less void calls (no expression at all in naga's
+    // arena), bare / in a block / in a loop / twice / with an unused parameter, 1..4 levels above the accessing helper
+    for d in 1..=4usize {
+        for (wi, wrap) in ["bare", "block", "loop", "twice", "unused-param", "if-true"].into_iter().enumerate() {
+            for (si, stage) in Stage::ALL.iter().enumerate() {
+                let mut src = String::from(ResKind::TYPES);
+                let kind = ResKind::BINDABLE[(d + wi + si) % 8];
+                let (decl, vars) = kind.decl("res", 0, 0);
+                src.push_str(&decl);
+                let expect: Vec<_> = vars.iter().map(|(n, b)| (n.clone(), 0, *b, stage.bit())).collect();
+                let acc = kind.accesses("res", 0)[0].1.full.clone();
+                src.push_str(&helper("reader", false, &indent(&acc)));
+                for i in (0..d).rev() {
+                    let callee = if i == d - 1 { "reader".to_string() } else { format!("fwd{}", i + 1) };
+                    let call = if wrap == "unused-param" && i != d - 1 { format!("{callee}(0u);") } else { format!("{callee}();") };
+                    let body = match wrap {
+                        "block" => format!("    {{\n        {call}\n    }}\n"),
+                        "loop" => format!("    loop {{\n        {call}\n        break;\n    }}\n"),
+                        "twice" => format!("    {call}\n    {call}\n"),
+                        "if-true" => format!("    if true {{\n        {call}\n    }}\n"),
+                        _ => format!("    {call}\n"),
+                    };
+                    let params = if wrap == "unused-param" { "unused: u32" } else { "" };
+                    src.push_str(&format!("fn fwd{i}({params}) {{\n{body}}}\n"));
+                }
+                let ename = match stage { Stage::V => "vs_main", Stage::F => "fs_main", Stage::C => "cs_main" };
+                let first = if wrap == "unused-param" { "fwd0(1u);" } else { "fwd0();" };
+                src.push_str(&stage.entry(ename, &indent(first)));
+                let other = Stage::ALL[(si + 2) % 3];
+                let oname = match other { Stage::V => "vs_other", Stage::F => "fs_other", Stage::C => "cs_other" };
+                src.push_str(&other.entry(oname, ""));
+                out.push(Prog { key: format!("C-forward|d={d}|wrap={wrap}|stage={stage:?}"), src, expect, steps: d as u64 + 2 });
+            }
+        }
+    }
     out
 }
 
